@@ -30,7 +30,9 @@ RULE = ("(a) cases with at least one mutable container in the input; non-trivial
         "(c) histories of 1..8 parses followed by a probe; non-trivial = the history contains a failed parse or a parse with other options before the probe. "
         "distinct = hash of the case")
 ASSUMPTIONS = [
-    "aliasing is not mutation: a result may share an object with the input (same-type short-cut); only changes of the caller's objects are reported",
+    "aliasing is not mutation: a result may share an object with the input (same-type short-cut of bare types); only changes of the caller's objects are "
+    "reported - except for parameterised List[T]/Set[T]/Dict[K,V] positions, whose result containers the args parsers build fresh (anchored mechanism): "
+    "there the result must not BE the caller's container",
     "consuming a one-shot iterator is not counted as mutation (iterators are not generated as inputs here)",
     "(c) outcomes are compared through vf/oracle.py:plain / (exception class, item)",
 ]
@@ -124,7 +126,36 @@ def run_a(case):
         where = _first_diff(before, after)
         fails.append((f"input-mutated/{entry}/{_kind_at(spec, out)}", {"before": before, "after": after, "outcome": out[0], "where": where}))
     changed = out[0] == "ok" and out[1] is not entries.ABSENT and not oracle.equal(out[1], codec.decode(vs))
+    if out[0] == "ok" and out[1] is not entries.ABSENT and entry in ("call", "transform", "schema", "dataclass", "param"):
+        shared = aliased_generic(spec, x, out[1])
+        if shared:
+            # the result of a parameterised container type is built by the args parsers: handing the caller's own list/set/dict
+            # back means a later change of the result (or of a sibling result parsed from the same object) changes the input
+            fails.append((f"result-of-a-parameterised-container-is-the-callers-object/{shared}", {"where": shared, "input": before}))
     return {"status": out[0], "fails": fails, "changed": changed}
+
+
+def aliased_generic(spec, x, r, path=""):
+    """kind/path of the first mutable container of the input that a parameterised List/Set/Dict position of the result IS"""
+    k = spec.get("k")
+    if k in ("list", "set", "dict") and spec.get("m", "annotate") != "bare":
+        want = {"list": list, "set": set, "dict": dict}[k]
+        if type(r) is want and r is x:
+            return f"{k}{path and '/nested'}{'/empty' if not len(r) else ''}"
+        if type(r) is want and type(x) is want and len(r) == len(x):
+            if k == "list":
+                for a, b in zip(x, r):
+                    got = aliased_generic(spec["a"], a, b, path + "/item")
+                    if got:
+                        return got
+            elif k == "dict":
+                for (ka, va), (kb, vb) in zip(x.items(), r.items()):
+                    got = aliased_generic(spec["val"], va, vb, path + "/value")
+                    if got:
+                        return got
+    elif k == "opt" and x is not None:
+        return aliased_generic(spec["a"], x, r, path)
+    return None
 
 
 def _kind_at(spec, out):
